@@ -198,6 +198,8 @@ def gop(op, st):
         return "OLookup %s %s" % (RT[op["rt"]], gstr(op["name"]))
     if k == "lookups":
         return "OLookups %s %s" % (RT[op["rt"]], glist(op["names"], gstr))
+    if k == "resolve":
+        return "OResolve %s" % gstr(op["name"])
     if k == "lookup_unknown":
         return "OLookupUnknown"
     if k == "resp_unknown":
@@ -246,7 +248,7 @@ def to_gallina(c, o):
     rv, rt = merge_oracles(steps)
     trace = []
     for op, st in zip(c["ops"], steps[nstart:]):
-        if op["op"] in ("register", "resolve"):
+        if op["op"] == "register":
             continue
         trace.append("(%s, %s)" % (gop(op, st), gstep(st)))
     nodes_ok = all(q["node_id"] == "node-" + cfg["ns"] for st in steps for q in st["reqs"])
